@@ -568,4 +568,174 @@ theorem count_filter_ite {α} [BEq α] [LawfulBEq α] (p : α → Bool) (a : α)
     intro hm
     exact h (List.mem_filter.mp hm).2
 
+/-! ## recursive UNION (distinct) -/
+
+theorem dedupAux_absorb {κ : Type} [DecidableEq κ] (key : Row → κ) (seen : List κ) (a r : List Row) :
+    dedupAux key seen (dedupAux key seen a ++ r) = dedupAux key seen (a ++ r) := by
+  induction a generalizing seen with
+  | nil => rfl
+  | cons x xs ih =>
+    by_cases h : key x ∈ seen
+    · simp only [dedupAux, h, if_true, List.cons_append]
+      exact ih seen
+    · simp only [dedupAux, h, if_false, List.cons_append]
+      rw [ih (key x :: seen)]
+
+theorem dedupBy_absorb {κ : Type} [DecidableEq κ] (key : Row → κ) (a r : List Row) :
+    dedupBy key (dedupBy key a ++ r) = dedupBy key (a ++ r) := dedupAux_absorb key [] a r
+
+/-- no two kept records share a key, and nothing with a seen key is kept -/
+theorem dedupAux_keys {κ : Type} [DecidableEq κ] (key : Row → κ) (seen : List κ) (l : List Row) :
+    ((dedupAux key seen l).map key).Nodup ∧ ∀ x, x ∈ dedupAux key seen l → key x ∉ seen := by
+  induction l generalizing seen with
+  | nil => exact ⟨List.nodup_nil, fun _ h => by cases h⟩
+  | cons x xs ih =>
+    by_cases h : key x ∈ seen
+    · simp only [dedupAux, h, if_true]; exact ih seen
+    · simp only [dedupAux, h, if_false, List.map_cons, List.nodup_cons, List.mem_cons]
+      have ih' := ih (key x :: seen)
+      refine ⟨⟨?_, ih'.1⟩, ?_⟩
+      · intro hm
+        obtain ⟨y, hy, hk⟩ := List.mem_map.mp hm
+        exact (ih'.2 y hy) (by rw [hk]; exact List.mem_cons_self ..)
+      · rintro y (rfl | hy)
+        · exact h
+        · exact fun hs => (ih'.2 y hy) (List.mem_cons_of_mem _ hs)
+
+/-- every key of the input survives (unless it was already seen) -/
+theorem dedupAux_complete {κ : Type} [DecidableEq κ] (key : Row → κ) (seen : List κ) (l : List Row) (x : Row)
+    (hx : x ∈ l) (hs : key x ∉ seen) : ∃ y, y ∈ dedupAux key seen l ∧ key y = key x := by
+  induction l generalizing seen with
+  | nil => cases hx
+  | cons z zs ih =>
+    by_cases h : key z ∈ seen
+    · simp only [dedupAux, h, if_true]
+      rcases List.mem_cons.mp hx with rfl | hz
+      · exact absurd h hs
+      · exact ih seen hz hs
+    · simp only [dedupAux, h, if_false, List.mem_cons]
+      by_cases hk : key z = key x
+      · exact ⟨z, Or.inl rfl, hk⟩
+      · rcases List.mem_cons.mp hx with rfl | hz
+        · exact absurd rfl hk
+        · obtain ⟨y, hy, hky⟩ := ih (key z :: seen) hz (by
+            intro hm
+            rcases List.mem_cons.mp hm with e | e
+            · exact hk e.symm
+            · exact hs e)
+          exact ⟨y, Or.inr hy, hky⟩
+
+theorem dedupAux_sublist {κ : Type} [DecidableEq κ] (key : Row → κ) (seen : List κ) (l : List Row) :
+    (dedupAux key seen l).Sublist l := by
+  induction l generalizing seen with
+  | nil => exact List.Sublist.slnil
+  | cons x xs ih =>
+    by_cases h : key x ∈ seen
+    · simp only [dedupAux, h, if_true]; exact (ih seen).cons _
+    · simp only [dedupAux, h, if_false]; exact (ih _).cons_cons _
+
+theorem recLoopU_some {κ : Type} [DecidableEq κ] (key : Row → κ) (step : List Row → List Row) (fuel : Nat)
+    (acc g out : List Row) :
+    recLoopU key step fuel acc g = some out ↔
+      ∃ k, k < fuel ∧ (∀ j, j < k → generation step g (j + 1) ≠ []) ∧ generation step g (k + 1) = [] ∧
+        out = (if k = 0 then acc
+               else dedupBy key (acc ++ ((List.range k).map (fun j => generation step g (j + 1))).flatten)) := by
+  induction fuel generalizing acc g with
+  | zero => simp [recLoopU]
+  | succ fuel ih =>
+    simp only [recLoopU]
+    by_cases he : step g = []
+    · simp only [he, List.isEmpty_nil, if_true, Option.some.injEq]
+      constructor
+      · intro h
+        exact ⟨0, Nat.succ_pos _, fun j hj => absurd hj (Nat.not_lt_zero _), by simpa [generation] using he, by simp [h]⟩
+      · rintro ⟨k, _, hne, _, hout⟩
+        cases k with
+        | zero => simpa using hout.symm
+        | succ k => exact absurd (by simpa [generation] using he) (hne 0 (Nat.succ_pos _))
+    · have hne' : (step g).isEmpty = false := by
+        cases h : step g with
+        | nil => exact absurd h he
+        | cons _ _ => rfl
+      simp only [hne', Bool.false_eq_true, if_false]
+      rw [ih]
+      have key_eq : ∀ k, (if k = 0 then dedupBy key (acc ++ step g)
+            else dedupBy key (dedupBy key (acc ++ step g) ++
+              ((List.range k).map (fun j => generation step (step g) (j + 1))).flatten))
+          = dedupBy key (acc ++ ((List.range (k + 1)).map (fun j => generation step g (j + 1))).flatten) := by
+        intro k
+        rw [gens_shift]
+        cases k with
+        | zero => simp
+        | succ k =>
+          rw [if_neg (Nat.succ_ne_zero k), dedupBy_absorb, List.append_assoc]
+      constructor
+      · rintro ⟨k, hk, hne, hemp, hout⟩
+        refine ⟨k + 1, Nat.succ_lt_succ hk, ?_, ?_, ?_⟩
+        · intro j hj
+          cases j with
+          | zero => simpa [generation] using he
+          | succ j =>
+            have := hne j (Nat.lt_of_succ_lt_succ hj)
+            rwa [generation_shift] at this
+        · rwa [generation_shift] at hemp
+        · rw [if_neg (Nat.succ_ne_zero k), ← key_eq k]; exact hout
+      · rintro ⟨k, hk, hne, hemp, hout⟩
+        cases k with
+        | zero => exact absurd (by simpa [generation] using hemp) he
+        | succ k =>
+          refine ⟨k, Nat.lt_of_succ_lt_succ hk, ?_, ?_, ?_⟩
+          · intro j hj
+            rw [generation_shift]
+            exact hne (j + 1) (Nat.succ_lt_succ hj)
+          · rw [generation_shift]; exact hemp
+          · rw [key_eq k]; rw [if_neg (Nat.succ_ne_zero k)] at hout; exact hout
+
+theorem recLoopU_none {κ : Type} [DecidableEq κ] (key : Row → κ) (step : List Row → List Row) (fuel : Nat)
+    (acc g : List Row) :
+    recLoopU key step fuel acc g = none ↔ ∀ j, j < fuel → generation step g (j + 1) ≠ [] := by
+  induction fuel generalizing acc g with
+  | zero => simp [recLoopU]
+  | succ fuel ih =>
+    simp only [recLoopU]
+    by_cases he : step g = []
+    · simp only [he, List.isEmpty_nil, if_true]
+      constructor
+      · intro h; cases h
+      · intro h; exact absurd (by simpa [generation] using he) (h 0 (Nat.succ_pos _))
+    · have hne' : (step g).isEmpty = false := by
+        cases h : step g with
+        | nil => exact absurd h he
+        | cons _ _ => rfl
+      simp only [hne', Bool.false_eq_true, if_false]
+      rw [ih]
+      constructor
+      · intro h j hj
+        cases j with
+        | zero => simpa [generation] using he
+        | succ j =>
+          have := h j (Nat.lt_of_succ_lt_succ hj)
+          rwa [generation_shift] at this
+      · intro h j hj
+        rw [generation_shift]
+        exact h (j + 1) (Nat.succ_lt_succ hj)
+
+/-! ## outer joins against an empty other side / with an always-true condition -/
+
+theorem leftSpec_empty_right (wr : Nat) (L : List Row) (c : Cond) :
+    leftSpec wr L [] c = L.map (fun l => l ++ nulls wr) := by
+  unfold leftSpec
+  simp only [List.filter_nil, List.isEmpty_nil, if_true]
+  induction L with
+  | nil => rfl
+  | cons l ls ih => simp only [List.flatMap_cons, List.map_cons, ih, List.singleton_append]
+
+theorem rightSpec_empty_left (wl : Nat) (R : List Row) (c : Cond) :
+    rightSpec wl [] R c = R.map (fun r => nulls wl ++ r) := by
+  unfold rightSpec
+  simp only [List.filter_nil, List.isEmpty_nil, if_true]
+  induction R with
+  | nil => rfl
+  | cons r rs ih => simp only [List.flatMap_cons, List.map_cons, ih, List.singleton_append]
+
 end Csvq.Rel
